@@ -12,7 +12,7 @@ an ideal sequence `xs` answers (`some x₀, …, none, none, …`); `outsD` / `i
 arbitrary sequences of `next` (`true`) and `next_back` (`false`) calls; `pullN c m s` = final state
 and all events of `m` consecutive `next` calls.
 -/
-import KotoVerif.Lemmas.C13Cycle
+import KotoVerif.Lemmas.C13Peek
 
 namespace KotoVerif.C13
 open KotoVerif KotoVerif.Iter
@@ -116,6 +116,35 @@ example : (runCalls [true, false, false, true] (build 8 (.each .ident (.src (.se
     = [Val.int 1, Val.int 2, endMarker, endMarker] :=
   calls_refines 8 (.each .ident (.src (.seq [Val.int 1, Val.int 2]))) [Val.int 1, Val.int 2]
     rfl rfl rfl trivial rfl _
+
+/-- **peek_ops_refine.** Any sequence of `next`, `next_back`, `peek`, `peek_back` on
+`p.peekable()` over a bidirectional pipeline answers like the ideal double-ended sequence `den p`,
+where `peek` / `peek_back` look at the two ends without removing anything (the cached element stays
+part of the sequence, also when it is the only one left and is reached from the other end). Over a
+forward-only pipeline the back-end operations are excluded: there the code reorders the sequence
+(finding F-C13-4). -/
+theorem peek_ops_refine (fuel : Nat) (p : Pipe) (xs : List Val)
+    (hreg : p.regular = true) (herr : p.err = none) (hden : den p = some xs) (hfit : p.fits fuel)
+    (hbi : p.bidir = true) (ops : List PeekOp) :
+    (runCase fuel p (.peekOps ops)).1 = .ok (.list (specPeekOps ops xs)) := by
+  have hd := (pipe_sem fuel p xs hreg herr hden hfit).2 hbi
+  have h := runPeekOps_spec (build fuel p).c endMarker ops ⟨(build fuel p).s, none, none⟩ xs hd
+  simp only [peekDen, Option.toList, List.nil_append, List.append_nil] at h
+  simp only [runCase, herr]
+  show Except.ok (Val.list (runPeekOps (build fuel p).c endMarker ops ⟨(build fuel p).s, none, none⟩).1) = _
+  rw [h, specPeekOps_eq]
+
+example : (runCase 8 (.src (.seq [Val.int 1, Val.int 2])) (.peekOps [.peek, .peekBack, .next, .peek, .back, .next])).1
+    = .ok (.list [Val.int 1, Val.int 2, Val.int 1, Val.int 2, Val.int 2, endMarker]) :=
+  peek_ops_refine 8 (.src (.seq [Val.int 1, Val.int 2])) [Val.int 1, Val.int 2] rfl rfl rfl trivial rfl _
+
+/-- Over a forward-only input the back-end operations of `Peekable` are *not* order-preserving as
+the code stands (the model mirrors it): on a generator yielding `a, b, c` the sequence `peek,
+peek_back, next, next, next` answers `a, a, b, c, a` — the peeked `a` migrates to the back cache and
+is yielded last (finding F-C13-4; `peek_ops_refine` excludes this by `p.bidir`). -/
+theorem peek_back_forward_only_reorders (a b c : Val) :
+    (runPeekOps (genCo 0 [a, b, c]) endMarker [.peek, .peekBack, .next, .next, .next]
+      ⟨(0, false), none, none⟩).1 = [a, a, b, c, a] := rfl
 
 /-- **cycle_take.** Over a pipeline that yields the non-empty `ys`, `cycle` yields
 `ys[0], …, ys[len-1], ys[0], …` endlessly: its first `n` outputs are `ys[t % len]` for `t < n`
